@@ -30,6 +30,7 @@ DEMO[C20b]="cd demo && cargo test --offline --release --test c20_failed_frame_ca
 DEMO[C02b]="cd demo && cargo test --offline"
 DEMO[C11b]="cd demo && cargo test --offline --release"
 DEMO[C13b]="cd demo && cargo test --offline --release"
+DEMO[C18c]="cd demo && cargo test --offline"
 for id in "$@"; do
   wt=/tmp/seed/$id
   log=/tmp/seed/confirm_$id.log
@@ -40,6 +41,7 @@ for id in "$@"; do
   export CARGO_NET_OFFLINE=true
   export CARGO_TARGET_DIR=$wt/target/demo
   cmd=${DEMO[$id]}
+  [ -z "$cmd" ] && [ -f demo/CMD ] && cmd=$(cat demo/CMD)
   ( eval "$cmd" ) >>$log 2>&1; before=$?
   git apply demo/patch.diff >>$log 2>&1; applied=$?
   unset CARGO_TARGET_DIR
